@@ -179,6 +179,10 @@ class Run:
         elif kind == 'restart':
             if len(live) > 1:
                 victim = rng.choice(live)
+                # a restart that takes running processes away is the interesting one
+                busy = [n for n in live if any(st in RUNNING_STATES for st in w.instances[n].running_truth().values())]
+                if busy and rng.random() < 0.6:
+                    victim = rng.choice(busy)
                 rec['on'] = victim
                 rec['down'] = round(rng.choice([rng.uniform(0.2, 4.0), rng.uniform(4.0, 15.0), rng.uniform(15, 40)]), 2)
                 w.crash_instance(victim)
